@@ -291,7 +291,26 @@ def run_op(objs, mod, op):
         if k == "full":
             return {"id": o.__xpm__.full_identifier.all.hex()}
         if k == "set":
-            setattr(o, op["pyname"], real_val(mod, op["spec"], {i: x for i, x in enumerate(objs)}))
+            val = real_val(mod, op["spec"], {i: x for i, x in enumerate(objs)})
+            how = op.get("how", "setattr")  # the syntactic ways to assign a parameter through the public object
+            if how == "xset":
+                o.__xpm__.set(op["pyname"], val)
+            elif how == "aug" and type(val) is int and type(getattr(o, op["pyname"], None)) is int:
+                exec(f"o.{op['pyname']} += d", {"o": o, "d": val - getattr(o, op["pyname"])})  # augmented assignment = get + set
+            else:
+                setattr(o, op["pyname"], val)
+            return {"ok": True}
+        if k == "del":  # `del cfg.name`: rejected whatever the exception
+            try:
+                delattr(o, op["pyname"])
+            except Exception as e:
+                return {"err": "rejected", "exc": type(e).__name__}
+            return {"ok": True}
+        if k == "xbypass":  # internal API (reachable through `__xpm__` only): observation, not part of the oracle
+            try:
+                o.__xpm__.set(op["pyname"], real_val(mod, op["spec"], {i: x for i, x in enumerate(objs)}), bypass=True)
+            except Exception as e:
+                return {"err": "rejected", "exc": type(e).__name__}
             return {"ok": True}
         if k == "setmeta":
             setmeta(o, op["b"])
